@@ -518,6 +518,7 @@ class Doc:
         self.all_objnums: List[int] = []
         self.features: List[str] = []
         self.plan_seen: List[str] = []
+        self.bulk = False
 
 
 def content_names(b: bytes) -> List[str]:
@@ -841,6 +842,59 @@ def gen_doc(rng, idx: int, plan: Optional[Plan] = None) -> Doc:
             d.features.append("enc:differences")
         if fd.tounicode:
             d.features.append("tounicode")
+    return d
+
+
+BULK = 70000      # more distinct names / keywords than any power-of-two table limit up to 2**16
+
+
+def gen_bulk_doc(rng, idx: int) -> Doc:
+    """An unusual but valid document that makes the PROCESS-WIDE tables grow a lot: page 0 carries
+    BULK distinct marked-content tags (/Tnnnnn MP -> interned names) and BULK distinct unknown operators
+    (-> interned keywords) spread over many Flate-compressed content streams (-> many cached objects);
+    page 1 is an ordinary page.  Whatever is extracted after it in the same process must not change."""
+    d = Doc()
+    d.idx = idx
+    d.npages = 2
+    fd = FontDesc()
+    fd.kind = "std14"
+    fd.obj = {"Type": "Font", "Subtype": "Type1", "BaseFont": "Helvetica"}
+    objs: Dict[int, Any] = {CATALOG: {"Type": "Catalog", "Pages": Ref(PAGES)}, FONT_BASE: fd.obj}
+    d.fonts[FONT_BASE] = fd
+    nstreams = 24
+    tag0 = rng.randrange(10) * 100000
+    chunks = []
+    per = BULK // nstreams + 1
+    for j in range(nstreams):
+        lo, hi = j * per, min(BULK, (j + 1) * per)
+        body = b"".join(b"/T%06d MP\n" % (tag0 + i) for i in range(lo, hi)) + \
+            b"".join(b"zq%06d\n" % (tag0 + i) for i in range(lo, hi))
+        chunks.append(body)
+    first = b"BT /F1 12 Tf 72.5 700 Td (bulk AZ) Tj ET\n"
+    refs = []
+    base = 200
+    for j, body in enumerate([first] + chunks):
+        objs[base + j] = Stream({"Filter": "FlateDecode"}, zlib.compress(body))
+        refs.append(Ref(base + j))
+    res = {"Font": {"F1": Ref(FONT_BASE)}}
+    objs[12] = {"Type": "Page", "Parent": Ref(PAGES), "MediaBox": [0, 0, 612, 792], "Resources": res, "Contents": refs}
+    objs[10] = Stream({}, b"BT /F1 11 Tf 80.25 650 Td (after the bulk page) Tj ET\n")
+    objs[15] = {"Type": "Page", "Parent": Ref(PAGES), "MediaBox": [0, 0, 612, 792], "Resources": res, "Contents": Ref(10)}
+    objs[PAGES] = {"Type": "Pages", "Kids": [Ref(12), Ref(15)], "Count": 2}
+    d.data = W.build_pdf(objs, CATALOG)
+    d.open_reads = [CATALOG]
+    d.all_objnums = sorted(objs)
+    d.walk_reads = [[PAGES, 12], [15, 10]]
+    d.proc_reads = [[FONT_BASE] + [r.n for r in refs], [FONT_BASE]]
+    d.page_fontids = [[FONT_BASE], [FONT_BASE]]
+    d.page_fonts = [[("F1", FONT_BASE, fd)], [("F1", FONT_BASE, fd)]]
+    d.page_shows = [[(fd, b"bulk AZ")], [(fd, b"after the bulk page")]]
+    d.page_gops = [[], []]
+    names = set(content_names(d.data)) | {"F1"}
+    names.update("T%06d" % (tag0 + i) for i in range(BULK))
+    d.names = sorted(names)
+    d.features = ["bulk:names=%d" % BULK, "bulk:keywords=%d" % BULK, "bulk:content-streams=%d" % (nstreams + 1)]
+    d.bulk = True
     return d
 
 
